@@ -260,3 +260,5 @@ PROPS['C04'] = dict(lean=['Mkdb.Props.C02'], facts=STORE_FACTS, runs=[dict(cmd='
 
 PROPS['C16'] = dict(lean=['Mkdb.Props.C02'], facts=STORE_FACTS + ['lru.capacity', 'skeleton.storage.LRUCache.*'], runs=[dict(cmd='db', proto='db', args=['c16'])],
     sig_filter=r'db:(cache-size-dependent|contents-differ:live|panic:live|hang:live|select-failed:live)', claim='pending', note='pending', rule='', shrink=False)
+PROPS['C17'] = dict(lean=['Mkdb.Props.C17'], facts=['skeleton.engine.Session.*', 'panics.engine.Session.*', 'skeleton.storage.OpenRelation', 'skeleton.storage.CreateDB', 'skeleton.storage.newFileStore', 'skeleton.storage.fileStore.close'],
+    runs=[dict(cmd='sess', proto='sess')], sig_filter=r'sess:.*', claim='pending', note='pending', rule='')
